@@ -171,16 +171,26 @@ def pick_arg(i):
         return ""
     if i == 3:
         return "unicod\u00e9 \U0001f600"
-    return "-c"
+    if i == 4:
+        return "-c"
+    # white space at the edges is part of the configured argument
+    if i == 5:
+        return "  indented"
+    if i == 6:
+        return "trailing "
+    if i == 7:
+        return "line\n"
+    return "\t"
 
 
 def corpus_entry(which, csel, asel, envsel):
-    command, args = pick_command(csel), [pick_arg(asel), pick_arg((asel + 1) % 5)]
+    command, args = pick_command(csel), [pick_arg(asel), pick_arg((asel + 1) % 9)]
+    envval = pick_arg((asel + 5) % 9)
     if which == 0:
-        return loader(command, args, envsel, "v", 0, False, True)
+        return loader(command, args, envsel, envval, 0, False, True)
     if which == 1:
-        return cli_test_server(command, args, envsel, "v", 0)
-    return runner(command, args, envsel, "v", 1)
+        return cli_test_server(command, args, envsel, envval, 0)
+    return runner(command, args, envsel, envval, 1)
 
 
 def loader(command, args, envsel, envval, tsel, extra_key, others):
